@@ -96,3 +96,23 @@ class Recorder(object):
         self.results = []
         d.addCallbacks(lambda v: self.results.append(('ok', v)) or None,
                        lambda f: self.results.append(('err', f.value)) or None)
+
+
+def quiet_twisted_logging():
+    """log.err() of deliberately failing listeners would otherwise print tracebacks to stderr"""
+    try:
+        from twisted.python import log
+        if getattr(log, 'defaultObserver', None) is not None:
+            log.defaultObserver.stop()
+            log.defaultObserver = None
+    except Exception:
+        pass
+    try:
+        from twisted.logger import globalLogBeginner
+        import io
+        globalLogBeginner.beginLoggingTo([lambda e: None], redirectStandardIO=False, discardBuffer=True)
+    except Exception:
+        pass
+
+
+quiet_twisted_logging()
